@@ -13,7 +13,10 @@ def main():
     mod = importlib.import_module("harness.checks." + a.pid.lower())
     try:
         if a.replay:
-            sys.exit(mod.replay(a.replay))
+            if hasattr(mod, "replay"):
+                sys.exit(mod.replay(a.replay))
+            from .replay import replay as generic_replay
+            sys.exit(generic_replay(a.pid, a.replay))
         rep = mod.run(a.tier)
         sys.exit(rep.finish())
     except (MachineryError, Exception) as e:
